@@ -1,6 +1,8 @@
 #!/bin/sh
 # usage: tools/soak.sh "<props>" "<seeds>" [tier]   -- runs each check per seed; prints one line per run; exit 1 if any run is not clean
 props="$1"; seeds="$2"; tier="${3:-quick}"; bad=0
+# under `vp run --with-repo` use the snapshot of /repo, so that mutation testing in /repo itself does not disturb the soak
+if [ -n "$VP_RUN_REPO" ]; then export VERIF_REPO_ROOT="$VP_RUN_REPO"; echo "soaking against $VERIF_REPO_ROOT"; fi
 for s in $seeds; do for p in $props; do
   out=$(VERIF_SEED=$s ./check $p --tier $tier 2>&1); rc=$?
   echo "seed=$s $p exit=$rc $(echo "$out" | grep '^done' | cut -c1-160)"
